@@ -8,48 +8,66 @@
 From FL Require Import Engine.Model Engine.Spec Engine.E1Base Engine.E1Inv Engine.E1Thms Engine.E1V0.
 Local Open Scope nat_scope.
 
-(* FULL STATEMENT (Spec.ack_persisted): a success answer to a non-preview write implies an entry ON DISK carrying the
-   answered transaction id and the request's kind, built by that request -- or, for a replayed idempotency key,
-   stored under that key:
-       forall s, reachable s -> ack_persisted s.
-   It is FALSE of the model (and of the code): SaveMeta / DeleteMetadata replaying a key that was stored by another
-   kind of write never look at the stored entry and answer success although nothing was written (known finding
-   "idempotency key stored by another kind of write"). Witness: a transaction with key 5 is written and acknowledged,
-   then SaveMeta with key 5 answers [ROk None]; the only entry on disk is the transaction. *)
-Theorem C06_ack_refuted : exists s, run init sched_ik_kinds = Some s /\ ~ ack_persisted s.
-Proof.
-  eexists. split; [vm_compute; reflexivity|].
-  intros H. destruct (H 1 _ None eq_refl eq_refl eq_refl) as (e & Hin & _ & Hk & _).
-  destruct Hin as [<-|[]]. discriminate Hk.
-Qed.
-Print Assumptions C06_ack_refuted.
+(* Acknowledged means persisted (Spec.ack_persisted, the full statement, no hypothesis): a success answer to a
+   non-preview write implies an entry ON DISK carrying the answered transaction id and the request's kind, built by that
+   request -- or, for a replayed idempotency key, stored under that key. The replay branch of executionContext.run is
+   taken only when the stored log IS the outcome of this request ([Model.is_outcome_of]: same kind; revert: same
+   reverted transaction; metadata write: same target and content); a key that stored the outcome of another request
+   is refused with [EKeyReused] (see [C06_key_reuse_refused] below). *)
+Theorem C06_ack : forall s, reachable s -> ack_persisted s.
+Proof. exact e1_ack. Qed.
+Print Assumptions C06_ack.
 
-(* [ik_kind_consistent_b s] (E1Thms.v, executable; same text in the files of the other engine properties): every
-   request carrying a key that is on disk has the kind of that entry:
-     forallb (fun p => let rq := t_req (snd p) in N.eqb (rq_ik rq) 0 ||
-        forallb (fun e => negb (N.eqb (e_ik e) (rq_ik rq)) || same_kind (e_kind e) (rq_kind rq)) (persisted s)) (threads s) *)
-(* PARTIAL: the full statement in every reachable state in which no request carries a key stored by another kind of
-   write. The hypothesis is on the state itself only (not on the run that led to it): the disk only grows. *)
-Theorem C06_ack_partial : forall s, reachable s -> ik_kind_consistent_b s = true -> ack_persisted s.
-Proof. exact e1_ack_partial. Qed.
-Print Assumptions C06_ack_partial.
+(* Key reuse refused (E1V0.sched_ik_kinds, the schedule of the former finding "idempotency key stored by another kind
+   of write"): a transaction with key 5 is written and acknowledged (tx 0), then SaveMeta with key 5. Before the repair
+   the SaveMeta answered [ROk None] and published an event although nothing was written ([ack_persisted] was false on
+   this very schedule); now it answers [RErr EKeyReused]: the disk still holds exactly the one transaction entry, the
+   only event is the one of the transaction, the key is released. *)
+Example C06_key_reuse_refused :
+  exists s, run init sched_ik_kinds = Some s /\
+    map (fun p => (fst p, t_pc (snd p), t_resp (snd p), t_entry (snd p))) (threads s) =
+      [(0, PFinished, Some (ROk (Some 0)), nth_error (persisted s) 0); (1, PFinished, Some (RErr EKeyReused), None)] /\
+    map (fun e => (e_owner e, e_kind e, e_ik e, e_txid e)) (persisted s) = [(0, KCreate, 5%N, Some 0)] /\
+    map (fun ev => (ev_tid ev, ev_kind ev)) (published s) = [(0, KCreate)] /\
+    v_iks s = [] /\ v_pending s = [] /\ v_batch s = None.
+Proof. eexists. split; [vm_compute; reflexivity|]. vm_compute. repeat split; reflexivity. Qed.
+Print Assumptions C06_key_reuse_refused.
 
-(* unconditionally: a success answer has its entry on disk, or it is exactly the known finding -- a metadata write,
-   answer [ROk None], nothing built, a key that is on disk under an entry of another kind *)
-Theorem C06_ack_or_mismatch : forall s, reachable s ->
-  forall t th x, get_thread (threads s) t = Some th -> t_resp th = Some (ROk x) -> rq_dry (t_req th) = false ->
-    (exists e, In e (persisted s) /\ answers t th x e) \/
-    (is_tx_kind (rq_kind (t_req th)) = false /\ x = None /\ rq_ik (t_req th) <> 0%N /\ t_entry th = None /\
-     exists e, In e (persisted s) /\ e_ik e = rq_ik (t_req th) /\ same_kind (e_kind e) (rq_kind (t_req th)) = false).
-Proof. exact e1_ack_weak. Qed.
-Print Assumptions C06_ack_or_mismatch.
+(* the same key and the same KIND of write, but another request.
+   (i) E1V0.sched_sm_other_target / sched_sm_same_target: SaveMeta with key 6 on target-and-content 1 is written and
+   acknowledged; SaveMeta with key 6 on ANOTHER target / content (2) answers [RErr EKeyReused], writes nothing, publishes
+   nothing, releases the key; SaveMeta with key 6 and the SAME target and content is a replay: [ROk None], published
+   again, still one entry on disk *)
+Example C06_key_reuse_other_target :
+  (exists s, run init sched_sm_other_target = Some s /\
+     map (fun p => (fst p, t_resp (snd p), t_entry (snd p))) (threads s) =
+       [(1, Some (ROk None), nth_error (persisted s) 0); (2, Some (RErr EKeyReused), None)] /\
+     map (fun e => (e_owner e, e_kind e, e_ik e, e_meta e)) (persisted s) = [(1, KSaveMeta, 6%N, 1%N)] /\
+     map ev_tid (published s) = [1] /\ v_iks s = [] /\ v_pending s = [] /\ v_batch s = None) /\
+  (exists s, run init sched_sm_same_target = Some s /\
+     map (fun p => (fst p, t_resp (snd p), t_entry (snd p))) (threads s) =
+       [(1, Some (ROk None), nth_error (persisted s) 0); (2, Some (RErr EKeyReused), None); (3, Some (ROk None), None)] /\
+     map (fun e => (e_owner e, e_kind e, e_ik e, e_meta e)) (persisted s) = [(1, KSaveMeta, 6%N, 1%N)] /\
+     map ev_tid (published s) = [1; 3] /\ v_iks s = []).
+Proof. split; (eexists; split; [vm_compute; reflexivity|]); vm_compute; repeat split; reflexivity. Qed.
+Print Assumptions C06_key_reuse_other_target.
 
-(* transactions (create, revert) are not concerned: acknowledged means persisted, no hypothesis *)
-Theorem C06_ack_tx : forall s, reachable s ->
-  forall t th x, get_thread (threads s) t = Some th -> t_resp th = Some (ROk x) -> rq_dry (t_req th) = false ->
-    is_tx_kind (rq_kind (t_req th)) = true -> exists e, In e (persisted s) /\ answers t th x e.
-Proof. exact e1_ack_tx. Qed.
-Print Assumptions C06_ack_tx.
+(* (ii) E1V0.sched_rv_other_revert (the schedule shape of the former C16 finding "key reused for a revert of another
+   transaction"): transactions 0, 1, 2 exist; request 3 reverts tx 1 with key 8 and is acknowledged (tx 3); request 4
+   carries key 8 for a revert of tx 2: [RErr EKeyReused], nothing written, no event, tx 2 is not reverted, the key and
+   the revert reservation are released *)
+Example C06_key_reuse_other_revert :
+  exists s, run init sched_rv_other_revert = Some s /\
+    map (fun p => (fst p, t_resp (snd p))) (threads s) =
+      [(0, Some (ROk (Some 0))); (1, Some (ROk (Some 1))); (2, Some (ROk (Some 2))); (3, Some (ROk (Some 3)));
+       (4, Some (RErr EKeyReused))] /\
+    map (fun e => (e_owner e, e_kind e, e_ik e, e_txid e, e_reverts e)) (persisted s) =
+      [(0, KCreate, 0%N, Some 0, None); (1, KCreate, 0%N, Some 1, None); (2, KCreate, 0%N, Some 2, None);
+       (3, KRevert, 8%N, Some 3, Some 1)] /\
+    is_reverted (persisted s) 1 = true /\ is_reverted (persisted s) 2 = false /\
+    map ev_tid (published s) = [0; 1; 2; 3] /\ v_iks s = [] /\ v_revs s = [] /\ v_pending s = [] /\ v_batch s = None.
+Proof. eexists. split; [vm_compute; reflexivity|]. vm_compute. repeat split; reflexivity. Qed.
+Print Assumptions C06_key_reuse_other_revert.
 
 (* the [done] signalling: a write leaves the wait only when its own entry is on disk *)
 Theorem C06_done : forall s, reachable s -> forall t th, get_thread (threads s) t = Some th ->
